@@ -111,6 +111,29 @@ class Facts:
         pre = body.key + "::{"
         return [b for k, b in self.bodies(body.crate).items() if k.startswith(pre)]
 
+    def inline(self, node, depth=0):
+        """Copy of a THIR tree in which every closure expression carries the closure's own THIR under 'body'."""
+        if isinstance(node, list):
+            return [self.inline(x, depth) for x in node]
+        if not isinstance(node, dict):
+            return node
+        out = {k: self.inline(v, depth) for k, v in node.items()}
+        if node.get("k") == "closure" and node.get("def") and depth < 6:
+            b = self.body(node["def"])
+            if b is not None and b.thir is not None:
+                out["body"] = self.inline(b.thir, depth + 1)
+                out["params"] = b.d.get("thir_params")
+        return out
+
+    def thir(self, key):
+        """Closure-inlined THIR of a body (None if absent)."""
+        b = self.body(key)
+        if b is None or b.thir is None:
+            return None
+        if not hasattr(b, "_inl"):
+            b._inl = self.inline(b.thir)
+        return b._inl
+
     def adt(self, key):
         crate = self._crate_of_key(key)
         if crate is None or not self.has_crate(crate):
